@@ -40,7 +40,18 @@ def files(repo):
         out += sorted(os.path.relpath(p, repo) for p in glob.glob(os.path.join(repo, pat)))
     out += ["data/__init__.py", "data/base_workload_loader.py", "data/workload_loader.py", "data/worker_loader.py",
             "data/csv_reader.py", "data/csv_types.py"]
+    # the trace / benchmark loaders: audited for every hidden input EXCEPT their private generators (see TRACE_LOADERS)
+    out += [r for r in sorted(os.path.relpath(p, repo) for p in glob.glob(os.path.join(repo, "data/*.py"))) if r not in out]
     return out
+
+
+def is_trace_loader(rel):
+    """loaders of replayed traces and benchmarks: each owns a private generator (`self._rng`) built from the seed flag; those
+    generators are outside the modelled generator program (sites recorded as C_private_gen with scope false).  Everything
+    else in these modules - iteration over sets, hash()/id(), wall clock, OS entropy, the process-global generator - is
+    audited in scope like the yaml path."""
+    return rel.startswith("data/") and rel not in ("data/__init__.py", "data/base_workload_loader.py", "data/workload_loader.py",
+                                                   "data/worker_loader.py", "data/csv_reader.py", "data/csv_types.py")
 
 
 # policies the claim does not cover (solver-backed or not among EDF/FIFO/LSF): their sites are listed, never requested
@@ -578,6 +589,9 @@ def classify(repo):
             cls, why = "C_draw G_os", "OS entropy"
         elif kind == "numpy_global":
             cls, why = "C_draw G_os", "numpy's legacy global generator is never seeded by /repo"
+        elif kind in ("rng_ctor", "rng_method") and is_trace_loader(rel):
+            cls, why = "C_private_gen", "private generator of a trace loader (outside the generator program; scope false)"
+            o["scope"] = False
         elif kind == "rng_ctor":
             if rel == "utils.py" and fn == "EventTime.__init__":
                 node = ast.parse(txt, mode="eval").body
